@@ -87,14 +87,22 @@ def main():
         more = common_univ.generate(chk, thorough, chk.seed + 80, nquick=700, nthorough=7000)
         more += c06.gen(chk, 'GenLat', thorough, chk.seed + 81, 200, 2000)
         more += c06.gen(chk, 'GenHex', thorough, chk.seed + 82, 120, 1200)
+        # LIKE n BUT decks with their density spellings (the composition a volume is assigned to must be written)
+        from . import c15
+        likes = c15.like_decks(chk, False, chk.seed + 83)
+        rng.shuffle(likes)
+        more += likes[:1200 if thorough else 150]
     except tlc.TLCFailure as exc:
         chk.machinery(str(exc))
         more = []
     base_tid = max(nd) if nd else 0
     jobs2, nd2 = [], {}
     for i, d in enumerate(more):
-        d = adeck.decorate_materials(adeck.normalise(d), rng, spellings='canonical') if not any(c.get('mat') for c in d['cells']) \
-            else adeck.simple_materials(adeck.normalise(d))
+        if d.get('predecorated'):
+            d = adeck.normalise(d)
+        else:
+            d = adeck.decorate_materials(adeck.normalise(d), rng, spellings='canonical') if not any(c.get('mat') for c in d['cells']) \
+                else adeck.simple_materials(adeck.normalise(d))
         d['pts'] = []
         tid = base_tid + i + 1
         nd2[tid] = d
